@@ -1,16 +1,23 @@
 #!/bin/bash
 # Runs every property's quick check against each behaviour-preserving edit in /verif/benign: nothing may fire.
+# usage: tools/benign.sh [patch ...]   (default: benign/*.patch)
 V=$(cd "$(dirname "$0")/.." && pwd); cd $V
-for m in benign/*.patch; do
-  S=$(mktemp -d /tmp/gpbn.XXXXXX); mkdir -p $S/repo $S/ev
-  rmdir $S/repo; git clone -q --shared /repo $S/repo
-  (cd $S/repo && git apply --3way --whitespace=nowarn $V/$m >/dev/null 2>&1) || { echo "$m APPLY-FAIL"; rm -rf $S; continue; }
-  (cd $S/repo && GOFLAGS=-mod=mod go build ./... ) || { echo "$m BUILD-FAIL"; rm -rf $S; continue; }
-  fired=""
+export GOFLAGS=-mod=mod GOPROXY=off GOSUMDB=off GOTOOLCHAIN=local
+one() {
+  m=$1
+  S=$(mktemp -d /tmp/gpbn.XXXXXX); mkdir -p $S/ev
+  git clone -q --shared /repo $S/repo
+  (cd $S/repo && git apply --3way --whitespace=nowarn $m >/dev/null 2>&1) || { echo "$(basename $m .patch) APPLY-FAIL"; rm -rf $S; return; }
+  (cd $S/repo && go build ./... >/dev/null 2>&1) || { echo "$(basename $m .patch) BUILD-FAIL"; rm -rf $S; return; }
+  fired=""; detail=""
   for p in $($V/bin/goparcheck -list); do
     out=$($V/bin/goparcheck -property $p -repo $S/repo -verif $V -evidence-dir $S/ev 2>&1); rc=$?
-    if [ $rc -ne 0 ]; then fired="$fired $p"; echo "$out" | grep -E "^(violated|UNDEC)" | head -3 | cut -c1-260 | sed "s/^/    [$p] /"; fi
+    if [ $rc -ne 0 ]; then fired="$fired $p"; detail="$detail$(echo "$out" | grep -E "^(violated|UNDEC)" | head -3 | cut -c1-260 | sed "s/^/    [$p] /")
+"; fi
   done
-  echo "$(basename $m .patch): fired=[${fired# }]"
+  echo "$(basename $m .patch): fired=[${fired# }]"; [ -n "$fired" ] && printf "%s" "$detail"
   rm -rf $S
-done
+}
+export -f one; export V
+if [ $# -eq 0 ]; then set -- benign/*.patch; fi
+for a in "$@"; do readlink -f $a; done | xargs -P 10 -I{} bash -c 'one {}' | cat
